@@ -243,7 +243,7 @@ def m_sym_atom(ctx, cty, a):
     return jnum(v)
 
 
-CLASSES = {0: "hex", 1: "lower", 2: "word", 3: "digit", 4: "printable", 5: "byte", 6: "alnum", 7: "jsonish"}
+CLASSES = {0: "hex", 1: "lower", 2: "word", 3: "digit", 4: "printable", 5: "byte", 6: "alnum", 7: "jsonish", 8: "abr"}
 
 
 @model("verif_harness::sym::string", "sym::string")
@@ -310,4 +310,11 @@ def m_sym_set_env(ctx, cty, a):
     k = as_sstr(a[0]).concrete()
     v = ctx.concretize(a[1], "env value")
     ctx.env[k] = v
+    return unit()
+
+
+@model("verif_harness::sym::hash_order", "sym::hash_order")
+def m_sym_hash_order(ctx, cty, a):
+    """0 = canonical order, 1 = forward/reverse, 2 = all permutations (up to perm_limit entries)"""
+    ctx.opts["hash_order"] = {0: "fixed", 1: "two", 2: "all"}[a[0]]
     return unit()
